@@ -30,7 +30,11 @@ Pow2 == <<1, 2, 4, 8, 16, 32, 64, 128>>
 Bit(b, k) == (b \div Pow2[k + 1]) % 2      \* bit k of byte b; k = 0 is the least significant bit
 Min(a, b) == IF a < b THEN a ELSE b
 Max(a, b) == IF a > b THEN a ELSE b
-Rev(s) == [i \in 1..Len(s) |-> s[Len(s) + 1 - i]]
+\* TLC evaluates a function constructor lazily (element by element, again at every application);
+\* Force turns it into an explicit sequence once, Map8 builds an explicit 8-tuple.
+Force(s) == s \o <<>>
+Map8(F(_)) == <<F(1), F(2), F(3), F(4), F(5), F(6), F(7), F(8)>>
+Rev(s) == Force([i \in 1..Len(s) |-> s[Len(s) + 1 - i]])
 
 \* the leftmost pixel of a graphic byte is bit 7
 MirrorByte(b) == (Bit(b, 0) * 128) + (Bit(b, 1) * 64) + (Bit(b, 2) * 32) + (Bit(b, 3) * 16)
@@ -38,16 +42,16 @@ MirrorByte(b) == (Bit(b, 0) * 128) + (Bit(b, 1) * 64) + (Bit(b, 2) * 32) + (Bit(
 
 \* A tile is a record [a |-> attribute byte, d |-> 8 graphic bytes (top pixel row first),
 \*                     m |-> 8 mask bytes, or <<>> when the tile has no mask].
-TileH(t) == [a |-> t.a, d |-> [i \in 1..8 |-> MirrorByte(t.d[i])],
-             m |-> [i \in 1..Len(t.m) |-> MirrorByte(t.m[i])]]              \* mirror left-right
+TileH(t) == [a |-> t.a, d |-> Map8(LAMBDA i : MirrorByte(t.d[i])),
+             m |-> IF Len(t.m) = 0 THEN <<>> ELSE Map8(LAMBDA i : MirrorByte(t.m[i]))]    \* mirror left-right
 TileV(t) == [a |-> t.a, d |-> Rev(t.d), m |-> Rev(t.m)]                      \* mirror top-bottom
 
 \* 90 degrees clockwise: the pixel at column x, row y moves to column 7-y, row x, i.e. new row i
 \* (1..8) is old column i read from the bottom row (leftmost new pixel) to the top row.
-RotBytes(d) == [i \in 1..8 |->
+RotBytes(d) == Map8(LAMBDA i :
     (Bit(d[1], 8 - i) * Pow2[1]) + (Bit(d[2], 8 - i) * Pow2[2]) + (Bit(d[3], 8 - i) * Pow2[3])
   + (Bit(d[4], 8 - i) * Pow2[4]) + (Bit(d[5], 8 - i) * Pow2[5]) + (Bit(d[6], 8 - i) * Pow2[6])
-  + (Bit(d[7], 8 - i) * Pow2[7]) + (Bit(d[8], 8 - i) * Pow2[8])]
+  + (Bit(d[7], 8 - i) * Pow2[7]) + (Bit(d[8], 8 - i) * Pow2[8]))
 TileR(t) == [a |-> t.a, d |-> RotBytes(t.d), m |-> IF Len(t.m) = 0 THEN <<>> ELSE RotBytes(t.m)]
 
 ---------------------------------------------------------------------------
@@ -55,13 +59,13 @@ TileR(t) == [a |-> t.a, d |-> RotBytes(t.d), m |-> IF Len(t.m) = 0 THEN <<>> ELS
 
 Rows(u) == Len(u)
 Cols(u) == Len(u[1])
-FlipH(u) == [r \in 1..Len(u) |-> [c \in 1..Len(u[r]) |-> TileH(u[r][Len(u[r]) + 1 - c])]]
-FlipV(u) == [r \in 1..Len(u) |-> [c \in 1..Len(u[1]) |-> TileV(u[Len(u) + 1 - r][c])]]
+FlipH(u) == Force([r \in 1..Len(u) |-> Force([c \in 1..Len(u[r]) |-> TileH(u[r][Len(u[r]) + 1 - c])])])
+FlipV(u) == Force([r \in 1..Len(u) |-> Force([c \in 1..Len(u[1]) |-> TileV(u[Len(u) + 1 - r][c])])])
 \* flip = 1 horizontally, 2 vertically, 3 both ways, 0 not at all
 Flip(u, f) == LET a == IF f % 2 = 1 THEN FlipH(u) ELSE u
               IN IF (f \div 2) % 2 = 1 THEN FlipV(a) ELSE a
 \* a quarter turn clockwise of an R x C array is a C x R array; its row r is old column r read bottom-up
-RotCW(u) == [r \in 1..Len(u[1]) |-> [c \in 1..Len(u) |-> TileR(u[Len(u) + 1 - c][r])]]
+RotCW(u) == Force([r \in 1..Len(u[1]) |-> Force([c \in 1..Len(u) |-> TileR(u[Len(u) + 1 - c][r])])])
 \* rotate = number of quarter turns clockwise (3 = one quarter turn anticlockwise)
 Rotate(u, n) == CASE n % 4 = 0 -> u
                   [] n % 4 = 1 -> RotCW(u)
@@ -73,8 +77,8 @@ Adjust(u, f, n) == Rotate(Flip(u, f), n)
 
 \* sna2img -i: "invert video for cells that are flashing": ink and paper pixels are exchanged by
 \* complementing the graphic bytes, and the cell stops flashing.
-InvertTile(t) == IF t.a >= 128 THEN [a |-> t.a - 128, d |-> [i \in 1..8 |-> 255 - t.d[i]], m |-> t.m] ELSE t
-Invert(u) == [r \in 1..Len(u) |-> [c \in 1..Len(u[r]) |-> InvertTile(u[r][c])]]
+InvertTile(t) == IF t.a >= 128 THEN [a |-> t.a - 128, d |-> Map8(LAMBDA i : 255 - t.d[i]), m |-> t.m] ELSE t
+Invert(u) == Force([r \in 1..Len(u) |-> Force([c \in 1..Len(u[r]) |-> InvertTile(u[r][c])])])
 
 ---------------------------------------------------------------------------
 (* Part 1c: frames.  A frame is a record                                    *)
@@ -137,7 +141,7 @@ Matrix(f, phase) ==
   LET tiles == Tiles(f)
       vw == ViewW(f, tiles)
       vh == ViewH(f, tiles)
-  IN [y \in 1..vh |-> [x \in 1..vw |-> ColourAt(tiles, f.scale, f.mask, phase, x - 1 + f.x, y - 1 + f.y)]]
+  IN Force([y \in 1..vh |-> Force([x \in 1..vw |-> ColourAt(tiles, f.scale, f.mask, phase, x - 1 + f.x, y - 1 + f.y)])])
 
 ---------------------------------------------------------------------------
 (* Part 2: colours in the file                                              *)
@@ -258,22 +262,25 @@ EndIsFinal == mode = "chunks" /\ aut.pos = "end" => hist[Len(hist)].t = "IEND"
 Fr(u, s, mt, x, y, w, h) == [udgs |-> u, flip |-> 0, rot |-> 0, inv |-> 0, flip2 |-> 0, rot2 |-> 0, scale |-> s,
                              mask |-> mt, x |-> x, y |-> y, w |-> w, h |-> h, xo |-> 0, yo |-> 0, delay |-> 32]
 Plain(u, s, mt) == Matrix(Fr(u, s, mt, 0, 0, 0, 0), 0)
-MirrorLR(M) == [y \in 1..Len(M) |-> Rev(M[y])]
+MirrorLR(M) == Force([y \in 1..Len(M) |-> Rev(M[y])])
 MirrorTB(M) == Rev(M)
-TurnCW(M) == [y \in 1..Len(M[1]) |-> [x \in 1..Len(M) |-> M[Len(M) + 1 - x][y]]]
-Sub(M, x, y, w, h) == [j \in 1..h |-> [i \in 1..w |-> M[y + j][x + i]]]
+TurnCW(M) == Force([y \in 1..Len(M[1]) |-> Force([x \in 1..Len(M) |-> M[Len(M) + 1 - x][y]])])
+Sub(M, x, y, w, h) == Force([j \in 1..h |-> Force([i \in 1..w |-> M[y + j][x + i]])])
 
 FlipFlipIsId == mode = "pixels" => \A f \in 0..3 : Flip(Flip(arr, f), f) = arr
 Rotate4IsId == mode = "pixels" => /\ RotCW(RotCW(RotCW(RotCW(arr)))) = arr
                                   /\ \A n \in 0..3 : Rotate(Rotate(arr, n), 4 - n) = arr
                                   /\ Rotate(arr, 2) = Flip(arr, 3)
-FlipIsMirror == mode = "pixels" => \A s \in 1..2, mt \in 0..2 :
-                   /\ Plain(Flip(arr, 1), s, mt) = MirrorLR(Plain(arr, s, mt))
-                   /\ Plain(Flip(arr, 2), s, mt) = MirrorTB(Plain(arr, s, mt))
-                   /\ Plain(Flip(arr, 3), s, mt) = MirrorTB(MirrorLR(Plain(arr, s, mt)))
-RotateIsTurn == mode = "pixels" => \A s \in 1..2, mt \in 0..2 :
-                   /\ Plain(Rotate(arr, 1), s, mt) = TurnCW(Plain(arr, s, mt))
-                   /\ Plain(Rotate(arr, 3), s, mt) = TurnCW(TurnCW(TurnCW(Plain(arr, s, mt))))
+\* (scale 1 is checked with the OR-AND mask, scale 2 with the AND-OR mask)
+FlipIsMirror == mode = "pixels" => \A s \in 1..2 :
+                   LET P == Plain(arr, s, s)
+                   IN /\ Plain(Flip(arr, 1), s, s) = MirrorLR(P)
+                      /\ Plain(Flip(arr, 2), s, s) = MirrorTB(P)
+                      /\ Plain(Flip(arr, 3), s, s) = MirrorTB(MirrorLR(P))
+RotateIsTurn == mode = "pixels" => \A s \in 1..2 :
+                   LET P == Plain(arr, s, s)
+                   IN /\ Plain(Rotate(arr, 1), s, s) = TurnCW(P)
+                      /\ Plain(Rotate(arr, 3), s, s) = TurnCW(TurnCW(TurnCW(P)))
 ScaleIsRepeat == mode = "pixels" => \A mt \in 0..2 :
                    LET P == Plain(arr, 1, mt) Q == Plain(arr, 3, mt)
                    IN /\ Len(Q) = 3 * Len(P) /\ Len(Q[1]) = 3 * Len(P[1])
@@ -281,18 +288,20 @@ ScaleIsRepeat == mode = "pixels" => \A mt \in 0..2 :
 \* crop = sub-matrix of the uncropped image; crop of a crop = one crop with added origins
 CropXs == {0, 1, 7, 9}
 CropWs == {1, 6, 8}
-CropIsSub == mode = "pixels" /\ nops = 0 => \A s \in 1..2, x \in CropXs, y \in CropXs, w \in CropWs, h \in CropWs :
+CropIsSub == mode = "pixels" /\ nops = 0 => \A s \in 1..2 :
                 LET P == Plain(arr, s, 1)
-                    okx == x + w <= Len(P[1])
-                    oky == y + h <= Len(P)
-                IN okx /\ oky => Matrix(Fr(arr, s, 1, x, y, w, h), 0) = Sub(P, x, y, w, h)
-CropOfCrop == mode = "pixels" /\ nops = 0 => \A x1 \in {0, 3}, y1 \in {1, 8}, x2 \in {0, 2}, y2 \in {0, 5}, w2 \in {1, 3}, h2 \in {2} :
+                IN \A x \in CropXs, y \in CropXs, w \in CropWs, h \in CropWs :
+                     (x + w <= Len(P[1]) /\ y + h <= Len(P)) => Matrix(Fr(arr, s, 1, x, y, w, h), 0) = Sub(P, x, y, w, h)
+CropOfCrop == mode = "pixels" /\ nops = 0 =>
                 LET P == Plain(arr, 2, 2)
-                    w1 == Len(P[1]) - x1 - 1
-                    h1 == Len(P) - y1 - 1
-                IN (x2 + w2 <= w1 /\ y2 + h2 <= h1) =>
-                      Sub(Matrix(Fr(arr, 2, 2, x1, y1, w1, h1), 0), x2, y2, w2, h2)
-                        = Matrix(Fr(arr, 2, 2, x1 + x2, y1 + y2, w2, h2), 0)
+                IN \A x1 \in {0, 3}, y1 \in {1, 8} :
+                     LET w1 == Len(P[1]) - x1 - 1
+                         h1 == Len(P) - y1 - 1
+                         C1 == Matrix(Fr(arr, 2, 2, x1, y1, w1, h1), 0)
+                     IN /\ Len(C1) = h1 /\ Len(C1[1]) = w1
+                        /\ \A x2 \in {0, 2}, y2 \in {0, 5}, w2 \in {1, 3}, h2 \in {2} :
+                             (x2 + w2 <= w1 /\ y2 + h2 <= h1) =>
+                               Sub(C1, x2, y2, w2, h2) = Matrix(Fr(arr, 2, 2, x1 + x2, y1 + y2, w2, h2), 0)
 \* the second flash phase differs from the first exactly in flashing cells whose ink and paper differ
 FlashIsSwap == mode = "pixels" => \A mt \in 0..2 :
                  LET f == Fr(arr, 1, mt, 0, 0, 0, 0)
